@@ -723,6 +723,23 @@ def z5_pcm(F, R, M, roles):
             ok = ins is not None and outs is not None and len(ins) == want_in and len(outs) == 1
             R.check(ok, 'Z5', '%s:shape' % b['name'], site(sg, a), '%d readable element(s), one writable status' % want_in,
                     '%s submits %s readable / %s writable elements' % (b['name'], len(ins) if ins is not None else None, len(outs) if outs is not None else None))
+            if b['name'] == 'pcm_xfer_nb':
+                # the non-blocking transfer takes exactly one period: the submission is reached only on the edge where the caller's
+                # frame length equals the stream's configured *period* size (not the buffer size, which is a multiple of it)
+                okp, seenp = False, None
+                for swid, vals, succ in sg.guards_of(a.id):
+                    d = S.operand(swid, sg.nodes[swid].d['discr'])
+                    for x in [d] + [y for y in subterms(d)]:
+                        # (assert_eq! compares through references to temporaries: resolved deeply)
+                        dx = list(deep_subterms(S, x)) if x[0] == 'bin' and x[1] in ('Eq', 'Ne') else []
+                        if any((y[0] == 'call' and y[2].endswith('::len')) or y[0] == 'ptrmeta' or (y[0] == 'un' and 'PtrMetadata' in str(y[1])) for y in dx) and \
+                                any(y[0] == 'param' for y in dx):
+                            flds = [pp[1] for y in dx if y[0] == 'loc' for pp in y[2] if pp[0] == 'f' and 'bytes' in pp[1]]
+                            seenp = flds or seenp
+                            if any('period' in f_ for f_ in flds) and not any('buffer' in f_ for f_ in flds):
+                                okp = True
+                R.check(okp, 'Z5', 'pcm_xfer_nb:one-period', site(sg, a), 'a non-blocking transfer is submitted only when the frame length equals the period size',
+                        'pcm_xfer_nb compares the frame length with %s instead of the configured period size: chunks larger than a period reach the device' % (seenp or 'nothing'))
             if b['name'] == 'pcm_xfer':
                 gs = sg.guards_of(a.id)
                 good = False
